@@ -3,8 +3,12 @@ Scenario:  <ntests> { <nops> { op } <group> <name> <file> <line> <ignored> <nstm
            (:p = TestResult::print, :f = addFailure and continue, :x = fail() and leave the test; tests run in the order given)
            op = :k <package> (setPackageName) | :n <group> (createFileName, the answer is observed).  The ops in front of a test are made on the
            output object just before its printCurrentTestStarted callback, the trailing ones after runAllTests returned; no :k = package never set.
-Observation: <nfiles> { <filename> <content> } <nnames> { <answer> } -- every file JUnitTestOutput wrote through the PlatformSpecificFOpen/FPuts/FClose
-           seams, and what each createFileName call answered.
+           Optional tail  :F <run-ignored> <ngroupfilters> { <pattern> <strict> <invert> } <nnamefilters> { <pattern> <strict> <invert> }  = -ri and the
+           group / name filters (-g -sg -xg -xsg / -n -sn -xn -xsn) installed in the real TestRegistry; a test that is filtered out gets no callback (its
+           ops are never made), but the registry still sends group started / ended for a stretch none of whose tests is selected.
+Observation: <nfiles> { <filename> <content> } <nnames> { <answer> } -- the files that EXIST AT THE END of the run (written through the
+           PlatformSpecificFOpen/FPuts/FClose seams into a map name -> content: a second open of a name replaces what was there), in the order of the
+           first opens, and what each createFileName call answered.
 Judges: the extracted Coq `spec` (xml_parse + property) and, independently, Python's expat + a property check written here."""
 import xml.parsers.expat as expat
 from vlib import tb
@@ -21,11 +25,20 @@ RULE = ("runs of 1-6 groups x 1-8 scripted tests (pass / fail once / fail severa
         "every triple of short op sequences in front of group 1, in front of group 2 and after a two-group run). "
         "Long texts: captured output and failure messages of 1023..1025, 2047..2049, 3071..3073, 4095..4097, 5000, 10 k, 20 k, 40 k characters "
         "(thorough: up to 100 k), printed at once, in chunks, or accumulated over several groups, with characters needing escaping on and around "
-        "every multiple of 1024. non-trivial = some text contains a character with XML meaning, or the run has a failure, an ignored test, an "
-        "outside call or more than one group")
+        "every multiple of 1024. Filtered runs through the real TestRegistry (setGroupFilters / setNameFilters / setRunIgnored): eleven registry layouts "
+        "(2-5 stretches; the same group name in two stretches; one name containing another; two groups sharing a file name; a group with the empty name) "
+        "x eleven group filter lists (strict, substring, inverted, two filters, nothing matching) x six name filter lists, -ri with ignored tests, outside "
+        "calls attached to filtered tests; plus random runs with filters cut from their own group / test names: stretches fully filtered before, between "
+        "and after groups that ran, groups partially filtered (first / middle / last test), nothing selected. non-trivial = some text contains a character with XML meaning, or the run has a failure, an ignored test, an "
+        "outside call, a filter or more than one group")
 ASSUMPTIONS = ["texts are over printable ASCII (0x20-0x7e) plus CR and LF; TAB and bytes >= 0x80 are outside the property's quantifier",
                "line numbers and counts fit in int (they are printed through (int) casts with %d)",
-               "tests of a group run consecutively, no filters (every registered test runs)",
+               "tests of a group are registered consecutively (the default order); group = a maximal stretch of equally named tests in the registry; with filters, "
+               "a group 'ran' when at least one of its tests is selected, and only its selected tests are its tests",
+               "two stretches that map to one file name (the same group name twice = outside the property's quantifier; 'a/b' and 'a_b' = the naming rule itself): "
+               "only the later one is judged",
+               "the file the code writes for a stretch none of whose tests is selected (an empty suite under cpputest_[package_].xml) is not judged; a group with the "
+               "EMPTY name that ran and is followed by such a stretch loses its report to it in the unchanged code -- reported as an observation, not judged",
                "the clock seams return constants (time attributes are not constrained by the property)",
                "setPackageName / createFileName are called between callbacks (before a test's start callback, before or after the run), not from inside a writer function",
                "system-out of a group may carry either the text captured so far in the whole run (what the code does: the capture is never cleared) or the group's own text"]
@@ -82,11 +95,16 @@ def ser_ops(ops):
     return ["%x" % len(ops)] + [":%s %s" % (k, tb(v)) for k, v in ops]
 
 
-def ser(tests, post=()):
+def ser(tests, post=(), flt=None):
+    """flt = None | (run_ignored, [group filter], [name filter]) with filter = (pattern, strict, invert)"""
     out = ["%x" % len(tests)]
     for (ops, g, n, f, l, ign, body) in tests:
         out += ser_ops(ops) + [tb(g), tb(n), tb(f), "%x" % l, "1" if ign else "0", "%x" % len(body)] + [ser_stmt(s) for s in body]
     out += ser_ops(list(post))
+    if flt is not None and (flt[0] or flt[1] or flt[2]):
+        out += [":F", "1" if flt[0] else "0"]
+        for fs in (flt[1], flt[2]):
+            out += ["%x" % len(fs)] + ["%s %d %d" % (tb(p), 1 if st else 0, 1 if inv else 0) for p, st, inv in fs]
     return " ".join(out)
 
 
@@ -102,7 +120,8 @@ def unb(tok):
     return bytes.fromhex(tok[1:])
 
 
-def parse_scn(s):
+def parse_full(s):
+    """-> tests, post, (run_ignored, group filters, name filters)"""
     t = s.split()
     pos = [0]
     def nxt():
@@ -123,7 +142,39 @@ def parse_scn(s):
                 body.append((tag, unb(nxt()), int(nxt(), 16), unb(nxt())))
         tests.append((o, g, nm, f, l, ign, body))
     post = ops()
+    flt = (False, [], [])
+    if pos[0] < len(t):
+        if nxt() != ":F":
+            raise ValueError("tail")
+        ri = nxt() != "0"
+        fl = []
+        for _ in range(2):
+            fl.append([(unb(nxt()), nxt() != "0", nxt() != "0") for _ in range(int(nxt(), 16))])
+        flt = (ri, fl[0], fl[1])
+    return tests, post, flt
+
+
+def parse_scn(s):
+    tests, post, flt = parse_full(s)
     return tests, post
+
+
+def f_match(f, target):
+    pat, strict, invert = f
+    return ((target == pat) if strict else (pat in target)) != invert
+
+
+def fs_match(fs, target):
+    return True if not fs else any(f_match(f, target) for f in fs)
+
+
+def is_selected(flt, t):
+    return fs_match(flt[1], t[1]) and fs_match(flt[2], t[2])
+
+
+def armed(tests, flt):
+    """-ri: every ignored test runs like a plain one"""
+    return [(t[0], t[1], t[2], t[3], t[4], t[5] and not flt[0], t[6]) for t in tests]
 
 
 def gen_ops(rng, tx, groups, never_empty=False):
@@ -283,11 +334,112 @@ def long_family(rng, tier):
     return out
 
 
+# ------------------------------------------------------------------ runs with filters / -ri
+def _layout_tests(layout, ignored_at=(), ops_at=None):
+    """layout = list of (group name, [test names]); tests get distinct lines; a failing and a printing test per stretch"""
+    tests = []
+    k = 0
+    for g, names in layout:
+        for j, nm in enumerate(names):
+            body = []
+            if j == 0:
+                body.append(("p", b"o" + g[:1] + nm[-1:]))
+            if j == 1:
+                body.append(("f", b"b.cpp", 3 + k, b"m" + nm))
+            ops = list(ops_at.get(k, [])) if ops_at else []
+            tests.append((ops, g, nm, b"a.cpp", 10 + k, k in ignored_at, body))
+            k += 1
+    return tests
+
+
+LAYOUTS = [
+    [(b"G", [b"ta", b"tb"]), (b"H", [b"ta", b"tb"])],
+    [(b"H", [b"ta"]), (b"G", [b"ta", b"tb"])],
+    [(b"G", [b"ta", b"tb"]), (b"H", [b"ta"]), (b"I", [b"tb", b"ta"])],
+    [(b"H", [b"tb"]), (b"G", [b"ta", b"tb"]), (b"I", [b"ta"])],
+    [(b"G", [b"ta"]), (b"H", [b"ta", b"tb"]), (b"G", [b"tb", b"tc"])],                   # the same group name in two stretches
+    [(b"G", [b"ta", b"tb"]), (b"H", [b"tb"]), (b"G", [b"ta"]), (b"H", [b"ta"])],
+    [(b"G", [b"ta"]), (b"GH", [b"ta", b"tb"]), (b"H", [b"tb"])],                          # one name contains the other
+    [(b"I", [b"tb"]), (b"H", [b"tb"]), (b"G", [b"ta", b"tb"]), (b"H2", [b"tb"]), (b"I2", [b"tb"])],
+    [(b"G", [b"ta", b"tb", b"tc", b"ta2"])],
+    [(b"G/x", [b"ta"]), (b"H", [b"tb"]), (b"G_x", [b"tb"]), (b"I", [b"tb"])],             # two groups that share a file name
+    [(b"", [b"ta"]), (b"G", [b"ta", b"tb"]), (b"H", [b"tb"])],                            # a group with the empty name in front
+]
+S = lambda p: (p, True, False)       # -sg / -sn
+C = lambda p: (p, False, False)      # -g / -n
+XS = lambda p: (p, True, True)       # -xsg / -xsn
+XC = lambda p: (p, False, True)      # -xg / -xn
+GROUP_FILTERS = [[], [S(b"G")], [S(b"H")], [C(b"G")], [C(b"H")], [XS(b"G")], [XC(b"H")], [S(b"G"), S(b"I")], [S(b"Z")], [XC(b"")], [S(b"I"), XS(b"H")]]
+NAME_FILTERS = [[], [C(b"a")], [S(b"tb")], [XC(b"a")], [S(b"zz")], [S(b"ta"), S(b"tc")]]
+
+
+def filtered_family(rng, tier):
+    """every layout x group filter x name filter (x -ri on a layout with ignored tests); quick: the whole family without name filters plus a
+    sample of the rest"""
+    out = []
+    for li, layout in enumerate(LAYOUTS):
+        ntests = sum(len(n) for _, n in layout)
+        for gf in GROUP_FILTERS:
+            for nf in NAME_FILTERS:
+                if not gf and not nf:
+                    continue
+                if tier == "quick" and nf and rng.random() < 0.6:
+                    continue
+                out.append(ser(_layout_tests(layout), [], (False, gf, nf)))
+        # -ri: ignored tests run like plain ones (no skipped marker, their failures count); alone and together with filters
+        ign = set(k for k in range(ntests) if k % 2 == 1)
+        for gf in [[], [S(b"G")], [XS(b"G")], [C(b"H")]]:
+            for ri in (True, False):
+                if not ri and not gf:
+                    continue
+                out.append(ser(_layout_tests(layout, ignored_at=ign), [], (ri, gf, [])))
+        # outside calls attached to tests that are filtered out are never made: package set in front of the first test of every stretch
+        first = []
+        k = 0
+        for g, names in layout:
+            first.append(k)
+            k += len(names)
+        ops_at = {k: [("k", b"p%d" % i), ("n", b"G")] for i, k in enumerate(first)}
+        for gf in [[S(b"G")], [S(b"H")], [XS(b"G")], [S(b"Z")]]:
+            out.append(ser(_layout_tests(layout, ops_at=ops_at), [("n", b"H")], (False, gf, [])))
+    return out
+
+
+def gen_filtered_run(rng):
+    """a random run (all the usual texts) with filters made from its own group / test names"""
+    base = gen_run(rng, special=rng.random() < 0.6, pkgmode=rng.choice(["once", "never", "changing", "wild"]))
+    tests, post, _ = parse_full(base)
+    gnames = [t[1] for t in tests]
+    tnames = [t[2] for t in tests]
+    if rng.random() < 0.3 and len(tests) > 2:      # repeat an earlier group name in a later stretch
+        i = rng.randrange(len(tests))
+        j = rng.randrange(len(tests))
+        tests[j] = (tests[j][0], tests[i][1]) + tests[j][2:]
+    def piece(b):
+        if not b or rng.random() < 0.5:
+            return b
+        i = rng.randrange(len(b))
+        return b[i:rng.randrange(i, len(b)) + 1]
+    def mk(pool):
+        fs = []
+        for _ in range(rng.choice([1, 1, 1, 2, 3])):
+            src = rng.choice(pool) if rng.random() < 0.9 else plain(rng)
+            strict = rng.random() < 0.5
+            fs.append((src if strict else piece(src), strict, rng.random() < 0.3))
+        return fs
+    c = rng.random()
+    gf = mk(gnames) if c < 0.75 else []
+    nf = mk(tnames) if c > 0.55 else []
+    return ser(tests, post, (rng.random() < 0.3, gf, nf))
+
+
 def generate(tier, rng):
-    out = corpus_like() + op_orders() + long_family(rng, tier)
+    out = corpus_like() + op_orders() + long_family(rng, tier) + filtered_family(rng, tier)
     n = 450 if tier == "quick" else 30000
     for k in range(n):
         out.append(gen_run(rng, special=(k % 10 != 0), big=(tier != "quick" and k % 50 == 0)))
+    for k in range(250 if tier == "quick" else 12000):
+        out.append(gen_filtered_run(rng))
     return out
 
 
@@ -306,8 +458,9 @@ def _has(bs, chars=b"&<>\"'\r\n"):
 
 def nontrivial(s):
     tests, post, ops, names, msgs, prints = _texts(s)
+    flt = parse_full(s)[2]
     return (_has(names) or _has(msgs) or _has(prints) or len(set(t[1] for t in tests)) > 1 or bool(ops)
-            or any(t[5] for t in tests) or any(st[0] != "p" for t in tests for st in t[6]))
+            or any(t[5] for t in tests) or any(st[0] != "p" for t in tests for st in t[6]) or bool(flt[0] or flt[1] or flt[2]))
 
 
 def _size_label(n):
@@ -347,6 +500,27 @@ def classify(s):
     if any(o[0] == "k" for g in segs for t in g[1:] for o in t[0]): lab.append("package set inside a group")
     if any(o[0] == "n" for o in ops): lab.append("createFileName asked from outside")
     if any(o[0] == "n" for o in post): lab.append("createFileName asked after the run")
+    flt = parse_full(s)[2]
+    if flt[0]: lab.append("-ri")
+    if flt[0] and any(t[5] for t in tests): lab.append("-ri with an ignored test")
+    if len(set(g[0][1] for g in segs)) < len(segs): lab.append("same group name in two stretches")
+    if flt[1] or flt[2]:
+        lab.append("filters: " + "+".join((["group"] if flt[1] else []) + (["name"] if flt[2] else [])))
+        if any(f[2] for f in flt[1] + flt[2]): lab.append("filters: inverted")
+        if any(not f[1] for f in flt[1] + flt[2]): lab.append("filters: substring")
+        if len(flt[1]) > 1 or len(flt[2]) > 1: lab.append("filters: several of a kind")
+        sel = [[is_selected(flt, t) for t in g] for g in segs]
+        ran = [any(x) for x in sel]
+        if not any(ran): lab.append("filters select nothing")
+        if all(all(x) for x in sel): lab.append("filters select everything")
+        if any(any(x) and not all(x) for x in sel): lab.append("group partially filtered")
+        if any(ran):
+            fi, la = ran.index(True), len(ran) - 1 - ran[::-1].index(True)
+            if fi > 0: lab.append("fully filtered stretch before the first group that ran")
+            if la < len(ran) - 1: lab.append("fully filtered stretch after a group that ran")
+            if not all(ran[fi:la + 1]): lab.append("fully filtered stretch between groups that ran")
+            if any(r and g[0][1] == b"" for r, g in zip(ran, segs)): lab.append("group with the empty name ran under filters")
+        if any(t[0] and not is_selected(flt, t) for t in tests): lab.append("outside calls attached to a filtered test (never made)")
     cap = _size_label(sum(len(x) for x in prints))
     if cap: lab.append("captured output " + cap)
     m = _size_label(max([len(x) for x in msgs] or [0]))
@@ -465,13 +639,18 @@ def obs_files(obs):
 
 
 def judge(s, obs):
-    tests, post = parse_scn(s)
-    segs = segments(tests)
+    """the property over the files that exist at the end, written independently of the Coq spec"""
+    tests, post, flt = parse_full(s)
+    tests = armed(tests, flt)
+    segs = segments(tests)          # the stretches of the registry: group started / ended bracket each of them, filters or not
     files, names = obs_files(obs)
-    if len(files) != len(segs):
-        return "number of files written (%d) differs from the number of groups (%d)" % (len(files), len(segs))
+    fsmap = {}
+    for fn, content in files:
+        if fn in fsmap:
+            return "a file name is listed twice in the file system"
+        fsmap[fn] = content
     printed = b""
-    pkg = b""           # the package of the moment: the argument of the latest setPackageName
+    pkg = b""           # the package of the moment: the argument of the latest setPackageName that was made
     asked = 0
     def outside(ops):
         nonlocal pkg, asked
@@ -485,16 +664,25 @@ def judge(s, obs):
                     return "createFileName answer %d is not built from the package of that moment" % asked
                 asked += 1
         return None
-    for k, (g, (fn, content)) in enumerate(zip(segs, files)):
-        for t in g:
+    claims = []         # per stretch: (file name it is written under, selected tests, printed so far, printed by the group)
+    for g in segs:
+        ran = [t for t in g if is_selected(flt, t)]
+        for t in ran:   # a filtered test gets no callback: the calls attached to it are never made
             w = outside(t[0])
             if w:
                 return w
-        own = b"".join(st[1] for t in g if not t[5] for st in reached(t[6]) if st[0] == "p")
+        own = b"".join(st[1] for t in ran if not t[5] for st in reached(t[6]) if st[0] == "p")
         printed += own
-        if fn != expected_filename(pkg, g[0][1]):
-            return "file name of group %d" % k + (" (package set or changed after the first name was built)" if k > 0 or asked else "")
-        w = judge_file(g, content, printed, own)
+        # a stretch with no selected test is written under the name built from the empty group name: the judge is indifferent to that file
+        claims.append((expected_filename(pkg, ran[0][1] if ran else b""), ran, printed, own))
+    for k, (fn, ran, pall, own) in enumerate(claims):
+        if not ran:
+            continue
+        if any(c[0] == fn for c in claims[k + 1:]):
+            continue    # a later stretch maps to the same name (same group twice: outside the property; a/b vs a_b: the naming rule itself)
+        if fn not in fsmap:
+            return "group %d: no file of its name at the end of the run" % k + (" (package set or changed after the first name was built)" if k > 0 or asked else "")
+        w = judge_file(ran, fsmap[fn], pall, own)
         if w:
             return "group %d: %s" % (k, w)
     w = outside(post)
@@ -511,7 +699,8 @@ def extra_oracle(s, obs, flavour):
 
 
 def project(obs, flavour):
-    """only what the property constrains: file names + the expat tree reduced to the constrained fields"""
+    """only what the property constrains: file names + the expat tree reduced to the constrained fields, in name order; files that state
+    zero tests are left out (the property demands nothing of them)"""
     try:
         files, names = obs_files(obs)
     except Exception:
@@ -530,8 +719,10 @@ def project(obs, flavour):
                 tcs.append((k[1].get("name"), k[1].get("file"), k[1].get("line"), any(x[0] == "skipped" for x in kids),
                             [x[1].get("message") for x in kids if x[0] == "failure"]))
         so = ["".join(x for x in k[2] if isinstance(x, str)) for k in r[2] if not isinstance(k, str) and k[0] == "system-out"]
+        if r[1].get("tests") == "0" and not tcs:
+            continue    # a suite of no tests is nobody's report (what the code writes for a stretch none of whose tests is selected)
         out.append((fn, r[0], r[1].get("name"), r[1].get("tests"), r[1].get("failures"), tcs, so))
-    return repr(out)
+    return repr(out[:1] + sorted(out[1:], key=repr))
 
 
 def signature(s, obs):
@@ -570,55 +761,70 @@ def shorter(b):
 
 
 def shrink(s):
-    tests, post = parse_scn(s)
+    tests, post, flt = parse_full(s)
+    ser_ = lambda t, p=(): ser(t, p, flt)
+    # fewer filters, -ri off (a candidate is kept only while the implementation still fails on it)
+    if flt[0] or flt[1] or flt[2]:
+        yield ser(tests, post, None)
+        if flt[0]:
+            yield ser(tests, post, (False, flt[1], flt[2]))
+        for w in (1, 2):
+            for j in range(len(flt[w])):
+                f2 = list(flt); f2[w] = flt[w][:j] + flt[w][j + 1:]
+                yield ser(tests, post, tuple(f2))
+        for w in (1, 2):
+            for j, f in enumerate(flt[w]):
+                if not f[1]:    # substring -> strict
+                    f2 = list(flt); f2[w] = flt[w][:j] + [(f[0], True, f[2])] + flt[w][j + 1:]
+                    yield ser(tests, post, tuple(f2))
     # fewer outside calls
     if post:
-        yield ser(tests, [])
+        yield ser_(tests, [])
     if any(t[0] for t in tests):
-        yield ser([([],) + t[1:] for t in tests], post)
+        yield ser_([([],) + t[1:] for t in tests], post)
     for i in range(len(tests)):
         if len(tests) > 1:
             # keep the calls of a dropped test: they move in front of the next test (or after the run)
             if i + 1 < len(tests):
                 nxt = (list(tests[i][0]) + list(tests[i + 1][0]),) + tests[i + 1][1:]
-                yield ser(tests[:i] + [nxt] + tests[i + 2:], post)
+                yield ser_(tests[:i] + [nxt] + tests[i + 2:], post)
             else:
-                yield ser(tests[:i], list(tests[i][0]) + list(post))
+                yield ser_(tests[:i], list(tests[i][0]) + list(post))
             if tests[i][0]:
-                yield ser(tests[:i] + tests[i + 1:], post)
+                yield ser_(tests[:i] + tests[i + 1:], post)
     for i, t in enumerate(tests):
         for j in range(len(t[0])):
-            yield ser(tests[:i] + [(t[0][:j] + t[0][j + 1:],) + t[1:]] + tests[i + 1:], post)
+            yield ser_(tests[:i] + [(t[0][:j] + t[0][j + 1:],) + t[1:]] + tests[i + 1:], post)
     for j in range(len(post)):
-        yield ser(tests, post[:j] + post[j + 1:])
+        yield ser_(tests, post[:j] + post[j + 1:])
     for i, t in enumerate(tests):
         body = t[6]
         for j in range(len(body)):
-            yield ser(tests[:i] + [t[:6] + (body[:j] + body[j + 1:],)] + tests[i + 1:], post)
+            yield ser_(tests[:i] + [t[:6] + (body[:j] + body[j + 1:],)] + tests[i + 1:], post)
     for i, t in enumerate(tests):
         for j, o in enumerate(t[0]):
             for c in shorter(o[1]):
-                yield ser(tests[:i] + [(t[0][:j] + [(o[0], c)] + t[0][j + 1:],) + t[1:]] + tests[i + 1:], post)
+                yield ser_(tests[:i] + [(t[0][:j] + [(o[0], c)] + t[0][j + 1:],) + t[1:]] + tests[i + 1:], post)
     for j, o in enumerate(post):
         for c in shorter(o[1]):
-            yield ser(tests, post[:j] + [(o[0], c)] + post[j + 1:])
+            yield ser_(tests, post[:j] + [(o[0], c)] + post[j + 1:])
     for i, t in enumerate(tests):
         ops, g, n, f, l, ign, body = t
         for fld in (1, 2, 3):
             for c in shorter(t[fld]):
                 if fld == 1:
                     # keep the group structure: rename every test of this name
-                    yield ser([(x[0], c) + x[2:] if x[1] == g else x for x in tests], post)
+                    yield ser_([(x[0], c) + x[2:] if x[1] == g else x for x in tests], post)
                 else:
                     tt = list(t); tt[fld] = c
-                    yield ser(tests[:i] + [tuple(tt)] + tests[i + 1:], post)
+                    yield ser_(tests[:i] + [tuple(tt)] + tests[i + 1:], post)
         if l > 1:
-            yield ser(tests[:i] + [(ops, g, n, f, 1, ign, body)] + tests[i + 1:], post)
+            yield ser_(tests[:i] + [(ops, g, n, f, 1, ign, body)] + tests[i + 1:], post)
         for j, st in enumerate(body):
             for fld in ([1] if st[0] == "p" else [1, 3]):
                 for c in shorter(st[fld]):
                     ss = list(st); ss[fld] = c
-                    yield ser(tests[:i] + [(ops, g, n, f, l, ign, body[:j] + [tuple(ss)] + body[j + 1:])] + tests[i + 1:], post)
+                    yield ser_(tests[:i] + [(ops, g, n, f, l, ign, body[:j] + [tuple(ss)] + body[j + 1:])] + tests[i + 1:], post)
 
 
 LEVEL_TEXT = ("Machine-checked (Coq) theorems over an executable model of JUnitTestOutput driven by the callback order of TestRegistry::runAllTests: "
@@ -626,7 +832,10 @@ LEVEL_TEXT = ("Machine-checked (Coq) theorems over an executable model of JUnitT
               "for all s; for every run over printable text the report of each group, parsed by an XML parser written in Coq, yields exactly the tree that "
               "states the property (one file per group, true counts, one testcase per test in order with name/file/line, skipped iff ignored, failure iff failed "
               "with file:line: first message, system-out = printed text, of any length); file-name rule with the package in force when the group's file is written "
-              "(setPackageName / createFileName called at any point between callbacks; every createFileName answer is built from the package of its moment). Tied to the code by a differential run of the extracted model against a "
+              "(setPackageName / createFileName called at any point between callbacks; every createFileName answer is built from the package of its moment); runs with "
+              "group / name filters and -ri: the registry brackets every stretch with group started / ended, a fully filtered stretch is written as an empty suite under the "
+              "empty group name, the file system keeps the last write per name, and every group that ran has AT THE END its own report under its name (a writer that "
+              "leaves the group name between groups is refuted). Tied to the code by a differential run of the extracted model against a "
               "real JUnitTestOutput (files captured at the platform seams), judged by the extracted spec and independently by Python's expat.")
 LEVEL_NOTE = ("Trusted: Coq kernel, extraction, harness, generators, Python expat. Modelled not verified: the C++ itself; StringFromFormat/vsnprintf content "
               "(%d, %s copying) is modelled; time attributes are constants supplied by the harness; the XML parser covers the subset of XML 1.0 the writer can "
